@@ -106,6 +106,7 @@ func createASTTypeExpr(pkg string, t types.Type, varPool *VarPool, imports map[s
 		}, nil
 	case *types.Alias:
 		name := typ.Obj().Name()
+		var aliasExpr ast.Expr = ast.NewIdent(name)
 		if objPkg := typ.Obj().Pkg(); objPkg != nil && objPkg.Path() != pkg {
 			// For types from other packages, create a selector expression
 			// Format: package.TypeName
@@ -125,13 +126,37 @@ func createASTTypeExpr(pkg string, t types.Type, varPool *VarPool, imports map[s
 				pkgName = newPkgName
 			}
 
-			return &ast.SelectorExpr{
+			aliasExpr = &ast.SelectorExpr{
 				X:   ast.NewIdent(pkgName),
 				Sel: ast.NewIdent(name),
+			}
+		}
+
+		// An instance of a generic alias needs its type arguments: Set[string]
+		aliasArgs := typ.TypeArgs()
+		if aliasArgs == nil || aliasArgs.Len() == 0 {
+			return aliasExpr, nil
+		}
+
+		aliasArgExprs := make([]ast.Expr, 0, aliasArgs.Len())
+		for i := 0; i < aliasArgs.Len(); i++ {
+			expr, err := createASTTypeExpr(pkg, aliasArgs.At(i), varPool, imports)
+			if err != nil {
+				return nil, fmt.Errorf("type argument %d: %w", i, err)
+			}
+			aliasArgExprs = append(aliasArgExprs, expr)
+		}
+		if len(aliasArgExprs) == 1 {
+			return &ast.IndexExpr{
+				X:     aliasExpr,
+				Index: aliasArgExprs[0],
 			}, nil
 		}
 
-		return ast.NewIdent(name), nil
+		return &ast.IndexListExpr{
+			X:       aliasExpr,
+			Indices: aliasArgExprs,
+		}, nil
 	case *types.Slice:
 		expr, err := createASTTypeExpr(pkg, typ.Elem(), varPool, imports)
 		if err != nil {
